@@ -279,3 +279,56 @@ def expand(func_node, expr, depth: int = 4, keep=()):
                 return X(self.d - 1).visit(copy.deepcopy(defs[n.id]))
             return n
     return X(depth).visit(copy.deepcopy(expr))
+
+
+class _Sym:
+    """an opaque truthy value"""
+    def __init__(self, name):
+        self.name = name
+
+    def __repr__(self):
+        return f"<{self.name}>"
+
+
+def eval_lookup(expr, dict_txt: str, present: dict):
+    """Evaluate an expression that only looks keys up in the dict written `dict_txt` (`D[k]`, `D.get(k[, d])`, `k in D`,
+    conditional expressions, and / or / not, `is None` tests, constants) for a dict holding exactly `present`
+    ({key: value}; values may be None, constants or q._Sym objects).  Raises ValueError on anything else."""
+    def ev(e):
+        if isinstance(e, ast.Constant):
+            return e.value
+        if isinstance(e, ast.Subscript) and A.norm(e.value) == dict_txt and isinstance(e.slice, ast.Constant):
+            if e.slice.value not in present:
+                raise KeyError(e.slice.value)
+            return present[e.slice.value]
+        if isinstance(e, ast.Call) and isinstance(e.func, ast.Attribute) and e.func.attr == "get" and A.norm(e.func.value) == dict_txt and e.args and isinstance(e.args[0], ast.Constant):
+            default = ev(e.args[1]) if len(e.args) > 1 else None
+            return present.get(e.args[0].value, default)
+        if isinstance(e, ast.Compare) and len(e.ops) == 1:
+            if isinstance(e.ops[0], (ast.In, ast.NotIn)) and A.norm(e.comparators[0]) == dict_txt and isinstance(e.left, ast.Constant):
+                r = e.left.value in present
+                return r if isinstance(e.ops[0], ast.In) else not r
+            a, b = ev(e.left), ev(e.comparators[0])
+            if isinstance(e.ops[0], ast.Is):
+                return a is b
+            if isinstance(e.ops[0], ast.IsNot):
+                return a is not b
+            if isinstance(e.ops[0], ast.Eq):
+                return a == b
+            if isinstance(e.ops[0], ast.NotEq):
+                return a != b
+        if isinstance(e, ast.IfExp):
+            return ev(e.body) if ev(e.test) else ev(e.orelse)
+        if isinstance(e, ast.BoolOp):
+            vals = None
+            for v in e.values:
+                vals = ev(v)
+                if isinstance(e.op, ast.Or) and vals:
+                    return vals
+                if isinstance(e.op, ast.And) and not vals:
+                    return vals
+            return vals
+        if isinstance(e, ast.UnaryOp) and isinstance(e.op, ast.Not):
+            return not ev(e.operand)
+        raise ValueError(f"unsupported: {A.short(e)}")
+    return ev(expr)
